@@ -276,7 +276,7 @@ def check_exprs(exprs, style, stats=None):
                 stats.discarded["result-not-finite"] += 1
             continue
         if not agree(a, b):
-            raise Violation("C03:folded-value-differs-from-run-time-value:" + "+".join(op_of(e))[:30],
+            raise Violation("C03:folded-value-differs-from-run-time-value:" + "+".join(op_of(e))[:30] + nonbool_suffix(e),
                             {"expression": text, "folded": a, "run_time": b, "style": style})
         if stats is not None:
             for o in op_of(e):
@@ -287,6 +287,18 @@ def check_exprs(exprs, style, stats=None):
     if stats is not None:
         stats.classes["folded-completely" if folded_all else "partly-folded"] += 1
         stats.sample({"expressions": [e.render(False, {}) for e in exprs[:3]], "folded_code": flines[:3], "values": tf[:3]}, limit=3)
+
+
+def nonbool_suffix(e):
+    """and/or applied directly to a literal other than 0/1 (open finding F-D7b)"""
+    import re as _re
+
+    if e.leaf is not None:
+        return ""
+    if _re.search(r"\b(and|or)\b", e.fmt):
+        if any(k.leaf is not None and k.leaf not in ("0", "1") for k in e.kids):
+            return ":non-boolean-operand"
+    return "".join(sorted({nonbool_suffix(k) for k in e.kids}))
 
 
 def op_of(e):
